@@ -15,6 +15,12 @@ class Boom(Exception):
     pass
 
 
+# the class of the injected failure is varied: error handling that singles out some classes (e.g. treats OSError or
+# ValueError as "the queue was closed") must not hide them
+EXC_CLASSES = [Boom, ValueError, OSError, RuntimeError, KeyError, ZeroDivisionError, EOFError]
+_EXC = {"cls": Boom}
+
+
 _COUNTER = {"n": 0}
 
 
@@ -31,7 +37,7 @@ class FailImage(c03.StubImage):
         _COUNTER["n"] += 1
         if (self.fail_at == "all" or k == self.fail_at or self.sim_label == self.fail_at
                 or (isinstance(self.fail_at, frozenset) and (self.sim_label in self.fail_at or k in self.fail_at))):
-            raise Boom(f"failure injected at {self.sim_label}")
+            raise _EXC["cls"](f"failure injected at {self.sim_label}")
 
     def get_parity_sign(self):
         self._touch()
@@ -52,7 +58,7 @@ def run_stage(stage, par, fail_at, chooser=None, real=False):
         count["n"] += 1
         log.append(label)
         if fail_at == "all" or k == fail_at or label == fail_at or (isinstance(fail_at, frozenset) and (label in fail_at or k in fail_at)):
-            raise Boom(f"failure injected at {label}")
+            raise _EXC["cls"](f"failure injected at {label}")
 
     if stage == "visit":
         case = pyrgen.PyrCase(2, "g")
@@ -155,14 +161,15 @@ def main():
                 par = rng.choice([2, 2, 3, 4])
                 fa = rng.choice(fails)
                 tw = rng.choice([0.02, 0.2, 1.0])
+                _EXC["cls"] = EXC_CLASSES[si % len(EXC_CLASSES)]
                 kind, detail, sim = run_stage(stage, par, fa, chooser=simmp.RandomChooser(rng.randrange(2 ** 31), timeout_weight=tw))
                 h.case((stage, par, str(fa), tuple(sim.choices)))
                 h.count("stage", stage)
                 h.count("outcome", kind)
                 if kind != "raised":
                     h.violation(f"{stage}:{'hang' if kind == 'hang' else 'swallowed'}",
-                                f"{stage} with {par} workers, item {fa} raising, under a random schedule: {'did not terminate (' + detail + ')' if kind == 'hang' else 'returned normally although an item failed'}",
-                                input={"stage": stage, "workers": par, "fail_at": str(fa), "choices": sim.choices[:400], "trace": sim.trace[:100]})
+                                f"{stage} with {par} workers, item {fa} raising {_EXC['cls'].__name__}, under a random schedule: {'did not terminate (' + detail + ')' if kind == 'hang' else 'returned normally although an item failed'}",
+                                input={"stage": stage, "workers": par, "fail_at": str(fa), "exception": _EXC["cls"].__name__, "choices": sim.choices[:400], "trace": sim.trace[:100]})
                 elif sim.alive_at_return:
                     h.violation(f"{stage}:leak", f"{stage}: raised while workers {sim.alive_at_return} were still running", input={"stage": stage})
                 if si == 0:
